@@ -48,8 +48,8 @@ theorem exit_skip_all_exited (cfg : Cfg) (s s' : St) (h : Reach cfg s) (i : Nat)
 
 /-- non-vacuity: the default configuration (work-queue bound = number of workers) satisfies the hypotheses, and so does the
 configuration of the former D19 (work-queue bound below the number of workers of a factory pool) -/
-example : WellCfg ⟨2, some 2, none, false, none, false, [⟨3, true⟩], [], []⟩ ∧ WellCfg d19Cfg ∧
-    NoFaults ⟨2, some 2, none, false, none, false, [⟨3, true⟩], [], []⟩ ∧ NoFaults d19Cfg := by
+example : WellCfg ⟨2, some 2, none, false, none, false, [⟨3, true⟩], [], [], false⟩ ∧ WellCfg d19Cfg ∧
+    NoFaults ⟨2, some 2, none, false, none, false, [⟨3, true⟩], [], [], false⟩ ∧ NoFaults d19Cfg := by
   unfold WellCfg NoFaults d19Cfg; decide
 
 end WindVerif.C02
